@@ -137,6 +137,7 @@ type Gen struct {
 	localNames map[string][]*ssa.Alloc
 	calleeUse map[*CalleeSpec]int
 	assertUse map[*Clause]int
+	setAtUse  map[*SetClause]int
 	specFacts []string
 	inQuant   int
 	incoming map[*ssa.BasicBlock][]edge
@@ -302,6 +303,7 @@ func (g *Gen) reset() {
 	g.allocLog = map[*ssa.BasicBlock]bool{}
 	g.calleeUse = map[*CalleeSpec]int{}
 	g.assertUse = map[*Clause]int{}
+	g.setAtUse = map[*SetClause]int{}
 	g.trustedUsed = map[string]bool{}
 }
 
